@@ -110,7 +110,10 @@ func reportedRulesAST() map[string]bool {
 	return out
 }
 
-func newSentenceGen() (*sentenceGen, error) {
+func newSentenceGen() (*sentenceGen, error) { return newSentenceGenAvoiding(nil) }
+
+// newSentenceGenAvoiding: derivations use neither the rules BaseVisitor reports nor avoid.
+func newSentenceGenAvoiding(avoid map[string]bool) (*sentenceGen, error) {
 	src, err := os.ReadFile(filepath.Join(repoRoot, "cypher", "grammar", "Cypher.g4"))
 	if err != nil {
 		return nil, err
@@ -122,6 +125,9 @@ func newSentenceGen() (*sentenceGen, error) {
 	sg := &sentenceGen{g: g, reported: reportedRulesAST(), lex: keywordTokens(string(src)), min: map[string][]string{}, parent: map[string]string{}}
 	for k, v := range lexSamples {
 		sg.lex[k] = v
+	}
+	for r := range avoid {
+		sg.reported[r] = true
 	}
 	// shortest derivations, to a fixed point
 	for changed := true; changed; {
@@ -392,6 +398,82 @@ func joinTokens(toks []string) string {
 		last = t[len(t)-1]
 	}
 	return sb.String()
+}
+
+// contextSentences: for every target rule T and every rule R from which T can be reached,
+// one sentence in which T occurs beneath R (T forced into R's shortest derivation along a
+// shortest reference path, R forced into a shortest query). Used as probes by C09: a
+// forbidden construct in every syntactic position the grammar offers.
+func contextSentences(targets []string) []string {
+	var out []string
+	seen := map[string]bool{}
+	updating := map[string]bool{"oC_Create": true, "oC_Merge": true, "oC_CreateUnique": true, "oC_Foreach": true, "oC_Delete": true, "oC_Set": true, "oC_Remove": true}
+	for _, target := range targets {
+		// the context must be free of every other forbidden construct, so that only the
+		// target can be the reason for a rejection
+		avoid := map[string]bool{}
+		for _, other := range targets {
+			if other != target {
+				avoid[other] = true
+			}
+		}
+		if !updating[target] {
+			avoid["oC_UpdatingClause"] = true
+		}
+		sg, err := newSentenceGenAvoiding(avoid)
+		if err != nil || sg.min[target] == nil {
+			continue
+		}
+		for _, holder := range sg.g.order {
+			if sg.min[holder] == nil {
+				continue
+			}
+			if _, reachable := sg.parent[holder]; !reachable {
+				continue
+			}
+			// shortest reference path holder -> ... -> target
+			prev := map[string]string{holder: ""}
+			queue := []string{holder}
+			for len(queue) > 0 && prev[target] == "" && target != holder {
+				cur := queue[0]
+				queue = queue[1:]
+				refs := map[string]bool{}
+				collectRefs(sg.g.rules[cur], refs)
+				var names []string
+				for r := range refs {
+					names = append(names, r)
+				}
+				sort.Strings(names)
+				for _, r := range names {
+					if _, had := prev[r]; !had && sg.min[r] != nil {
+						prev[r] = cur
+						queue = append(queue, r)
+					}
+				}
+			}
+			if target != holder && prev[target] == "" {
+				continue
+			}
+			inner := sg.min[target]
+			ok := true
+			for cur := target; cur != holder; {
+				p := prev[cur]
+				inner, ok = sg.forceAlts(sg.g.rules[p], cur, inner)
+				if !ok {
+					break
+				}
+				cur = p
+			}
+			if !ok {
+				continue
+			}
+			if text, ok := sg.sentence(holder, inner); ok && !seen[text] {
+				seen[text] = true
+				out = append(out, text)
+			}
+		}
+	}
+	return out
 }
 
 // generateGrammarSentences returns the generated Go source and the sentences.
